@@ -42,6 +42,11 @@ CATALOG = {
     "C07": {
         "drivers": [("order", {"quick": 500, "thorough": 20000}, {})],
     },
+    "C08": {
+        # the whole list of unregistered overridable functions / ufuncs / ufunc methods is probed in every run
+        "drivers": [("dispatch", {"quick": 200, "thorough": 200}, {"total": 200}),
+                    ("dispatch", {"quick": 100, "thorough": 10000}, {})],
+    },
     "C09": {
         "drivers": [("shape", {"quick": 800, "thorough": 30000}, {})],
     },
@@ -53,6 +58,9 @@ CATALOG = {
     },
     "C19": {
         "drivers": [("lead", {"quick": 500, "thorough": 20000}, {})],
+    },
+    "C11": {
+        "drivers": [("const", {"quick": 400, "thorough": 20000}, {})],
     },
     "C12": {
         "drivers": [("dtype", {"quick": 500, "thorough": 20000}, {})],
